@@ -46,6 +46,7 @@ type World struct {
 	yieldOnRead  bool
 	yieldOnLock  bool
 	yieldOnFS    bool
+	delayAtFS    int // > 0: the goroutine making that many more FS calls is suspended after the last of them
 	fireBudget   int
 	tick         int64 // concrete logical clock used to order timers
 	fireBudgetOn bool
@@ -114,6 +115,21 @@ func (w *World) advanceTo(t value) {
 		w.Now()
 	}
 	ts := i.ts()
+	// both instants are usually offsets from the symbolic start of the clock
+	// (which lies in a range where nothing wraps): then the later one is known
+	// without asking, and the clock stays "start + constant"
+	if nt, ok := w.now.(symv); ok {
+		if tt, ok := t.(symv); ok {
+			xa, ca, _ := addConst(nt.t)
+			xb, cb, _ := addConst(tt.t)
+			if xa == xb && xa.op == "var" && xa.name == "clock!now" {
+				if int64(ca) < int64(cb) {
+					w.now = t
+				}
+				return
+			}
+		}
+	}
 	lt := ts.BVCmp("bvslt", i.term(w.now), i.term(t))
 	w.now = mkval(ts.Ite(lt, i.term(t), i.term(w.now)), types.Int64)
 }
